@@ -678,6 +678,11 @@ func (in *Interp) global(g *ssa.Global) *Cell {
 	elem := g.Type().(*types.Pointer).Elem()
 	c := in.newCell(elem, in.zero(elem))
 	in.globals[g] = c
+	if g.Pkg != nil && g.Pkg.Pkg.Path() == "crypto/rand" && g.Name() == "Reader" {
+		rt := in.namedType("crypto/rand", "reader")
+		c.V = IfaceV{T: types.NewPointer(rt), V: PtrV{C: in.newCell(rt, &randReaderTok{})}}
+		return c
+	}
 	in.ensureInit(g.Pkg)
 	return c
 }
